@@ -162,7 +162,10 @@ def run_shard(shard, ctx):
             depths = (1, 2)
         for depth in depths:
             for site in SITES:
-                for handle in (("text", "bytes") if shard["entry"] != "hdd" else ("text",)):
+                handles = ("text", "bytes") if shard["entry"] != "hdd" else ("text",)
+                if shard["entry"] != "hdd" and depth <= 2 and site == "text":
+                    handles += ("text+forward-only", "bytes+forward-only", "text+offset", "bytes+offset")
+                for handle in handles:
                     for pad in ((0, 70000, 300000) if depth == 1 and site != "attribute" else (0,)):
                         run_case({"entry": shard["entry"], "family": fam, "depth": depth, "site": site, "handle": handle,
                                   "pad": pad}, ctx)
@@ -271,8 +274,44 @@ def _document(entry, fam, depth, site, canary):
     return head + body, expect
 
 
+class _ForwardOnly:
+    """A handle that can only be read front to back (a pipe, a streamed archive member): no seek, no tell, no length."""
+
+    def __init__(self, inner):
+        self._inner = inner
+
+    def read(self, n=-1):
+        return self._inner.read(n)
+
+    def readable(self):
+        return True
+
+    def seekable(self):
+        return False
+
+    def seek(self, *a):
+        raise io.UnsupportedOperation("seek")
+
+    def tell(self):
+        raise io.UnsupportedOperation("tell")
+
+    def close(self):
+        pass
+
+
 def _parse(entry, doc, d, handle="text", encoding=None, fixed_stat=False):
-    if handle == "text":
+    how = None
+    if "+" in handle:
+        handle, how = handle.split("+")
+    if how is not None and entry != "hdd":
+        # the same documents through a forward-only handle, and behind 517 bytes / characters of other content with the handle
+        # positioned at the document's first character
+        pre = "#" * 517 if how == "offset" else ""
+        fh = io.StringIO(pre + doc) if handle == "text" else io.BytesIO((pre + doc).encode("utf-8"))
+        fh.seek(len(pre))
+        if how == "forward-only":
+            fh = _ForwardOnly(fh)
+    elif handle == "text":
         fh = io.StringIO(doc)
     elif encoding is None:
         fh = io.BytesIO(doc.encode("utf-8"))
